@@ -1,4 +1,4 @@
 ---------------------------- MODULE IssuanceGen ----------------------------
 EXTENDS Issuance, Json
-EmitC == phase = "end" => PrintT(<<"C", ToJson([cfg |-> cfg, fault |-> fault, outcome |-> outcome])>>)
+EmitC == phase = "end" => PrintT(<<"C", ToJson([cfg |-> cfg, faults |-> faults, outcome |-> outcome])>>)
 =============================================================================
